@@ -29,7 +29,7 @@ DER_BASES = ['L1Norm', 'L2NormSquared', 'L2Norm', 'KullbackLeibler', 'IndicatorB
              'IndicatorLpUnitBall', 'KullbackLeiblerCrossEntropy', 'GroupL1Norm',
              'KullbackLeiblerConvexConj', 'IndicatorZero', 'ConstantFunctional']
 DER_KINDS = ['translated', 'leftscal', 'leftscal_half', 'rightscal', 'rightscal_neg', 'quadpert_a0', 'scalarsum',
-             'rightvec', 'quadpert']
+             'rightvec', 'quadpert', 'quadpert_c']
 
 
 def configs(tier):
